@@ -20,6 +20,11 @@ PROPS = {
         "trusted_base": ["Go memory model, scheduler and sync.Mutex (not modelled)", "the race detector (supports the search, is not the proof)", "tools/extract's effect and lock analysis"],
         "assumptions": ["model-level proof; partial for the runtime: interleaving semantics over atomic steps, effect table extracted from the source"],
     },
+    "C19": {
+        "suites": [{"name": "c19-chains", "proj": ["chain", "class", "output", "driver"]}],
+        "trusted_base": ["filters outside the model (date, stringformat, urlize*, title, linebreaks, random, phone2numeric, removetags, truncate*_html) are not chained; the direct oracle (template output = composition of public ApplyFilter calls) needs no model"],
+        "assumptions": ["filter names come from the VerifRegisteredFilters hook, so a newly registered filter is exercised at once"],
+    },
     "C20": {
         "suites": [{"name": "c20-hist", "proj": ["cache", "driver"]}, {"name": "c20-conc", "proj": ["race"], "race": True}],
         "trusted_base": ["sync.Mutex semantics and the Go memory model (each FromCache/CleanCache call is taken as one atomic step, justified by the regenerated lock-discipline fact)", "harness loader's Abs = Go's path package, modelled in Lean (Path.clean/dir/join)"],
